@@ -501,6 +501,41 @@ pub fn run_odd_command(prop: &str, which: usize, unit: &Value, only: Option<&[To
     }
 }
 
+// ------------------------------------------------------------------------------------------
+// help written behind an adjacent command and an item of the enclosing level (`c1 -v --help`):
+// which level answers is open (the item ends the command's block), but the help flag is on the
+// line, left of `--`: the outcome is some help on stdout, never a failure
+// ------------------------------------------------------------------------------------------
+fn run_adjacent_gap(which: usize, unit: &Value, only: Option<&[Tok]>, ctx: &mut Ctx) {
+    let inner = if which == 0 { vec![P::ReqFlag(Names::short('x'))] } else { vec![P::Switch(Names::short('x'))] };
+    let c1 = P::Cmd { name: "c1".into(), shorts: vec![], longs: vec![], inner: Box::new(Opts::new(P::Seq(inner))), adjacent: true, help: None };
+    let o = Opts::new(P::Seq(vec![P::Switch(Names::short('v')), c1]));
+    let p = match build_checked(&o) {
+        Ok(p) => p,
+        Err(_) => return,
+    };
+    for l in [vec!["c1", "-v", "--help"], vec!["c1", "-v", "-h"], vec!["c1", "-v", "-x", "--help"], vec!["c1", "-x", "-v", "--help"], vec!["c1", "-v", "--help", "-x"]] {
+        let argv: Vec<Tok> = l.iter().map(|s| Tok::s(s)).collect();
+        if only.map_or(false, |o| o != argv.as_slice()) {
+            continue;
+        }
+        ctx.begin_case(|| json!({"argv": argv}));
+        ctx.s.evaluations += 1;
+        ctx.s.transitions += 1;
+        let r = run(&p, &argv);
+        if matches!(&r, Outcome::Stdout { text, .. } if text.contains("Usage")) {
+            ctx.s.nontrivial += 1;
+            ctx.count("help-behind-an-adjacent-command-and-an-outer-item");
+        } else {
+            let mut sig = BTreeMap::new();
+            sig.insert("family".to_string(), "adjacent-command-then-outer-item-then-help".to_string());
+            sig.insert("inner".to_string(), if which == 0 { "required-item" } else { "optional-item" }.to_string());
+            sig.insert("observed".to_string(), r.class().to_string());
+            ctx.violation(Violation { property: "C10".into(), rule: "help-flag-on-the-line-gives-help".into(), sig, unit: unit.clone(), case: json!({"argv": argv}), expected: "stdout: a help text (of the command or of the enclosing level)".into(), observed: r.brief(), size: argv.len() * 1000 });
+        }
+    }
+}
+
 impl Check for C10 {
     fn id(&self) -> &'static str {
         "C10"
@@ -587,11 +622,17 @@ impl Check for C10 {
         for k in 0..odd_command_cases().len() {
             out.push(json!({"odd": k}));
         }
+        out.push(json!({"adjgap": 0}));
+        out.push(json!({"adjgap": 1}));
         out
     }
     fn run_unit(&self, unit: &Value, ctx: &mut Ctx) {
         if let Some(k) = unit.get("odd").and_then(|k| k.as_u64()) {
             run_odd_command("C10", k as usize, unit, None, ctx);
+            return;
+        }
+        if let Some(k) = unit.get("adjgap").and_then(|k| k.as_u64()) {
+            run_adjacent_gap(k as usize, unit, None, ctx);
             return;
         }
         let u: Unit = serde_json::from_value(unit.clone()).unwrap();
@@ -603,6 +644,11 @@ impl Check for C10 {
             run_odd_command("C10", k as usize, unit, Some(&argv), ctx);
             return;
         }
+        if let Some(k) = unit.get("adjgap").and_then(|k| k.as_u64()) {
+            let argv: Vec<Tok> = serde_json::from_value(case["argv"].clone()).unwrap_or_default();
+            run_adjacent_gap(k as usize, unit, Some(&argv), ctx);
+            return;
+        }
         let u: Unit = serde_json::from_value(unit.clone()).unwrap();
         let base: Vec<Tok> = serde_json::from_value(case["base"].clone()).unwrap_or_default();
         let pos = case["pos"].as_u64().unwrap_or(0) as usize;
@@ -610,7 +656,7 @@ impl Check for C10 {
         run_u(&u, unit, Some((&base, pos, &token)), ctx);
     }
     fn rule(&self) -> String {
-        "definitions = conventional levels (<=2 named items x all tails incl. command tails of depth 3, version configured nowhere / at the top / everywhere), command trees of C08 (every fifth with custom - non-ASCII - help names on all levels, every seventh on the sub-commands only), the general shape family and adjacent group shapes; base vectors = every vector of the token tree (valid, invalid, incomplete); the help token (--help, -h, custom names) and the version token (--version, -V) are inserted as an item of their own at EVERY position left of the first `--`; oracle: outcome is stdout and equals, byte for byte, the help/version text of the level owning that position (reference level finder: deepest command whose name was the first unclaimed item), version is an ordinary unknown flag where not configured; on levels with a version and no commands a version item added at any position next to the help item still gives the help; for general shapes the level is judged while no command name precedes the position; for adjacent commands a position directly behind the command name and its own items belongs to the command; plus commands in unusual places (inside an optional member of a group that is one branch of an alternative; under fallback beside a valued alternative): help after the name, with malformed items around it, is the command's; evaluation = one run; non-trivial = judged insertion; plus repeated groups and choices holding a positional beside a named item (some / many / collect / last, top level and inside a command); plus switches written with an attached value (--verbose=1, -v=1, --quiet=), top level and inside a command".into()
+        "definitions = conventional levels (<=2 named items x all tails incl. command tails of depth 3, version configured nowhere / at the top / everywhere), command trees of C08 (every fifth with custom - non-ASCII - help names on all levels, every seventh on the sub-commands only), the general shape family and adjacent group shapes; base vectors = every vector of the token tree (valid, invalid, incomplete); the help token (--help, -h, custom names) and the version token (--version, -V) are inserted as an item of their own at EVERY position left of the first `--`; oracle: outcome is stdout and equals, byte for byte, the help/version text of the level owning that position (reference level finder: deepest command whose name was the first unclaimed item), version is an ordinary unknown flag where not configured; on levels with a version and no commands a version item added at any position next to the help item still gives the help; for general shapes the level is judged while no command name precedes the position; for adjacent commands a position directly behind the command name and its own items belongs to the command; plus commands in unusual places (inside an optional member of a group that is one branch of an alternative; under fallback beside a valued alternative): help after the name, with malformed items around it, is the command's; evaluation = one run; non-trivial = judged insertion; plus repeated groups and choices holding a positional beside a named item (some / many / collect / last, top level and inside a command); plus switches written with an attached value (--verbose=1, -v=1, --quiet=), top level and inside a command; help behind an adjacent command and an item of the enclosing level (c1 -v --help): some help on stdout (known finding F13 when the command has a required item)".into()
     }
     fn bounds(&self, tier: Tier) -> Value {
         json!({"base_vector_length": tier.pick("3 (1 item), 2 (2 items, trees, shapes), 3 (groups)", "4 / 3 / 4"), "insert_positions": "all, left of `--`"})
